@@ -77,6 +77,8 @@ Definition dec_s (fuel : nat) (v : val) : option stmt :=
   | VL [VZ 4; VZ k; i; e] =>
     match (if k =? 0 then Some TSpecial else if k =? 2 then Some TSystem else None), get_n i, dec_e fuel e with
     | Some k', Some i', Some e' => Some (SSetThe k' i' e') | _, _, _ => None end
+  | VL [VZ 5; k; o; e] =>
+    match get_n k, dec_e fuel o, dec_e fuel e with Some k', Some o', Some e' => Some (SSetAcc k' o' e') | _, _, _ => None end
   | _ => None
   end.
 
@@ -161,6 +163,7 @@ Definition text_okb_s (en : env) (props : list string) (s : stmt) : bool :=
   | SLCallS f args => lingo_plain_call (nth f (e_lfuncs en) "") && negb (String.eqb (nth f (e_lfuncs en) "") "go") && forallb (text_okb en) args
   | SSetObj f _ o v => assignable f && text_okb en o && text_okb en v
   | SSetThe k i v => text_okb en (EThe k i) && negb (starts_with "field(" (render en (pp_tok en (EThe k i)))) && text_okb en v
+  | SSetAcc n o v => text_okb en (EAcc n o) && text_okb en v
   end.
 Definition js_okb_s (en : env) (props : list string) (s : stmt) : bool :=
   match s with
@@ -169,6 +172,7 @@ Definition js_okb_s (en : env) (props : list string) (s : stmt) : bool :=
   | SLCallS f args => plain_call_name (nth f (e_lfuncs en) "") && forallb (js_okb en) args
   | SSetObj f _ o v => assignable f && js_okb en o && js_okb en v
   | SSetThe k i v => js_okb en (EThe k i) && js_okb en v
+  | SSetAcc _ _ _ => false
   end.
 Definition is_qnil (q : prog2) : bool := match q with QNil => true | _ => false end.
 Fixpoint text_okb_q (en : env) (props : list string) (q : prog2) : bool :=
